@@ -16,8 +16,14 @@
          right after an effective opening is the `at = off_content` conjunct of (b)
      (e) C06_fini_flushes   after the documented finalisation idiom with tracing enabled (and the
          two callbacks involved not disabling it) no open non-empty packet remains
-   (c) protocol on the callback log: see the end of this file. *)
-From Coq Require Import List Arith Bool ZArith String.
+     (c) C06_callback_protocol   for every history that starts with an opening call that takes
+         effect (hypothesis `opened_first`, S10) and every configuration whose event records have
+         positive size (hypothesis `pos_records`, S13): every tracer-initiated open callback entry
+         finds packet_is_open = 0 and the closest preceding is_backend_full answer is "not full";
+         every tracer-initiated close callback entry finds packet_is_open = 1.  Holds for every
+         reachable world, model-error worlds included.  Both hypotheses are necessary:
+         C06_protocol_without_pos_records_refuted, C06_protocol_without_opened_first_refuted. *)
+From Coq Require Import List Arith Bool ZArith String Lia.
 Import ListNotations.
 From BT.Base Require Import Bits.
 From BT.Layout Require Import Model.
@@ -87,6 +93,76 @@ Theorem C06_fini_flushes :
     c_open (w_c w') && negb (c_at (w_c w') <=? c_off_content (w_c w'))%nat = false.
 Proof. exact fini_flushes. Qed.
 Print Assumptions C06_fini_flushes.
+
+(* Spec.proto la l: scanning the log l with la = most recent is_backend_full answer, every
+   `ECb 1 true o` has o = false and la = Some false, every `ECb 2 true o` has o = true.
+   Spec.pos_records d: size_parts (rec_parts d e 0 args) a = Some a' -> a < a' for every event
+   record type e of d. *)
+Theorem C06_callback_protocol :
+  forall d buf pcargs oracle h,
+    pos_records d ->
+    c_open (w_c (run d buf pcargs oracle [COpen])) = true ->
+    proto None (w_log (run d buf pcargs oracle (COpen :: h))).
+Proof. exact run_proto. Qed.
+Print Assumptions C06_callback_protocol.
+
+(* without pos_records: 8-bit packet context filling a 1-byte buffer, event record of 0 bits:
+   `open; trace` invokes the open callback while the packet is open *)
+Theorem C06_protocol_without_pos_records_refuted :
+  exists d buf pcargs oracle h,
+    c_open (w_c (run d buf pcargs oracle [COpen])) = true /\
+    w_err (run d buf pcargs oracle (COpen :: h)) = false /\
+    In (ECb 1 true true) (w_log (run d buf pcargs oracle (COpen :: h))) /\
+    ~ proto None (w_log (run d buf pcargs oracle (COpen :: h))).
+Proof.
+  exists ex_dz, 1, [], [], [CTrace 0 [VArr []]].
+  split; [vm_compute; reflexivity|]. split; [vm_compute; reflexivity|].
+  split; [vm_compute; repeat (first [left; reflexivity | right])|].
+  intros H. vm_compute in H. decompose [and] H.
+  match goal with X : 1 = 1 -> _ |- _ => destruct (X eq_refl) as [Y _]; discriminate Y end.
+Qed.
+Print Assumptions C06_protocol_without_pos_records_refuted.
+
+(* without opened_first (S10): `init; trace` of a record that exactly fills the buffer invokes the
+   close callback while no packet is open *)
+Theorem C06_protocol_without_opened_first_refuted :
+  exists d buf pcargs oracle h,
+    pos_records d /\ w_err (run d buf pcargs oracle h) = false /\
+    In (ECb 2 true false) (w_log (run d buf pcargs oracle h)) /\
+    ~ proto None (w_log (run d buf pcargs oracle h)).
+Proof.
+  exists ex_d2, 2, [], [], [CTrace 0 []]. split.
+  { intros e args a a' Hin Hs. destruct Hin as [<-|[]].
+    vm_compute rec_parts in Hs. cbn -[align_up] in Hs. injection Hs as <-.
+    pose proof (align_up_ge a 8 ltac:(lia)).
+    pose proof (align_up_ge (align_up a 8) 8 ltac:(lia)).
+    pose proof (align_up_ge (align_up (align_up a 8) 8 + 8) 8 ltac:(lia)). lia. }
+  split; [vm_compute; reflexivity|].
+  split; [vm_compute; repeat (first [left; reflexivity | right])|].
+  intros H. vm_compute in H. decompose [and] H.
+  match goal with X : 2 = 2 -> false = true |- _ => specialize (X eq_refl); discriminate X end.
+Qed.
+Print Assumptions C06_protocol_without_opened_first_refuted.
+
+(* non-vacuity of (c): ex_d2 has positive-size records, its first opening takes effect, and the
+   history contains tracer-initiated open and close callbacks *)
+Example C06_example_pos_records : pos_records ex_d2.
+Proof.
+  intros e args a a' Hin Hs. destruct Hin as [<-|[]].
+  vm_compute rec_parts in Hs. cbn -[align_up] in Hs. injection Hs as <-.
+  pose proof (align_up_ge a 8 ltac:(lia)).
+  pose proof (align_up_ge (align_up a 8) 8 ltac:(lia)).
+  pose proof (align_up_ge (align_up (align_up a 8) 8 + 8) 8 ltac:(lia)). lia.
+Qed.
+Example C06_example_protocol :
+  c_open (w_c (run ex_d2 16 [] [] [COpen])) = true /\
+  w_err (run ex_d2 16 [] [] ex_h2) = false /\
+  In (ECb 1 true false) (w_log (run ex_d2 16 [] [] ex_h2)) /\
+  In (ECb 2 true true) (w_log (run ex_d2 16 [] [] ex_h2)).
+Proof.
+  split; [vm_compute; reflexivity|]. split; [vm_compute; reflexivity|].
+  split; vm_compute; repeat (first [left; reflexivity | right]).
+Qed.
 
 (* non-vacuity: the world before the final CFini of the example history has an open, non-empty
    packet, tracing enabled, and an exhausted oracle (default answers do not toggle); 3 packets are
